@@ -38,6 +38,77 @@ pub fn liveness_violations(rec: &RunRecord) -> Vec<Violation> {
     v
 }
 
+/// Token starvation after a lock wait: several scripts need the same slow
+/// target, so all but one sub-redo give their token back and wait for its
+/// lock; the tokens go to other jobs that run for minutes; when the lock is
+/// handed over the waiters need a token again and wait for one, for longer
+/// than any back-off ramp.
+fn starve_case(rng: &mut Rng, seed: u64) -> Case {
+    let n_wait = rng.range(2, 3) as usize;
+    let n_long = rng.range(1, 3) as usize;
+    let mut rules: Vec<(String, Rule)> = Vec::new();
+    rules.push((
+        "x.do".into(),
+        Rule {
+            version: 0,
+            stmts: vec![Stmt::IfChange(vec!["s0".into()]), Stmt::Work(rng.range(1_000, 40_000))],
+        },
+    ));
+    let mut names = Vec::new();
+    for i in 0..n_wait {
+        rules.push((
+            format!("w{}.do", i),
+            Rule {
+                version: 0,
+                stmts: vec![Stmt::IfChange(vec!["x".into()])],
+            },
+        ));
+        names.push(format!("w{}", i));
+    }
+    for i in 0..n_long {
+        rules.push((
+            format!("l{}.do", i),
+            Rule {
+                version: 0,
+                stmts: vec![Stmt::IfChange(vec!["s0".into()]), Stmt::Work(rng.range(70_000, 200_000))],
+            },
+        ));
+        names.push(format!("l{}", i));
+    }
+    if rng.chance(1, 2) {
+        rng.shuffle(&mut names);
+    }
+    let via_top = rng.chance(1, 2);
+    if via_top {
+        rules.push((
+            "top.do".into(),
+            Rule {
+                version: 0,
+                stmts: vec![Stmt::IfChange(names.clone())],
+            },
+        ));
+    }
+    let mut sc = Scenario {
+        family: "c09-starve".into(),
+        files: vec![("s0".into(), source_content("s0", 0))],
+        rules,
+        ..Default::default()
+    };
+    let ts: Vec<String> = if via_top { vec!["top".into()] } else { names };
+    let mut c = redo_cmd(rng, "redo", &ts, 1, 300);
+    c.argv.retain(|a| !a.starts_with("-j"));
+    c.argv.insert(1, format!("-j{}", rng.range(2, 3)));
+    sc.history.push(Step::Cmds(vec![c]));
+    Case {
+        property: "C09".into(),
+        seed,
+        scenario: sc,
+        knobs: Knobs::draw(rng),
+        opts: PlayOpts::default(),
+        meta: BTreeMap::new(),
+    }
+}
+
 impl Property for C09 {
     fn id(&self) -> &'static str {
         "C09"
@@ -50,14 +121,35 @@ impl Property for C09 {
     }
     fn rule(&self) -> &'static str {
         "random acyclic graphs of succeeding scripts built by 1-3 concurrent redo/redo-ifchange \
-         commands (-j1..8, log on/off, duplicate and aliased names) under seeded random-walk, PCT and \
-         serial schedules with select-stall faults; non-trivial = at least one preemption and one \
+         commands (-j1..8, log on/off, duplicate and aliased names; every eighth scenario with jobs that \
+         run for 70-200 simulated seconds, every eighth a token-starvation shape: waiters on one slow target's lock lose their tokens to minute-long jobs) under seeded random-walk, PCT and serial schedules with \
+         select-stall faults; non-trivial = at least one preemption and one \
          script execution; distinct = distinct (scenario, preemption signature) pairs"
     }
     fn generate(&self, rng: &mut Rng, seed: u64, _tier: Tier, index: u64) -> Case {
+        if index % 8 == 1 {
+            return starve_case(rng, seed);
+        }
         let mut p = GraphParams::small(rng);
         p.n_targets = rng.range(2, 7) as usize;
-        let g = gen_graph(rng, &p);
+        let mut g = gen_graph(rng, &p);
+        // every eighth scenario has one or two jobs that run for minutes of
+        // simulated time, so that other processes wait that long for a token
+        // or a lock (timers, back-off and retry loops far beyond their ramp-up)
+        if index % 8 == 5 {
+            for _ in 0..rng.range(1, 2) {
+                let i = rng.below(g.rules.len() as u64) as usize;
+                let ms = rng.range(70_000, 200_000);
+                let st = &mut g.rules[i].1.stmts;
+                match st.iter().position(|s| matches!(s, Stmt::Work(_))) {
+                    Some(k) => st[k] = Stmt::Work(ms),
+                    None => {
+                        let at = st.iter().position(|s| matches!(s, Stmt::Stamp { .. })).unwrap_or(st.len());
+                        st.insert(at, Stmt::Work(ms));
+                    }
+                }
+            }
+        }
         let mut sc = g.scenario("c09");
         let shape = index % 4;
         let mut cmds = Vec::new();
